@@ -133,7 +133,12 @@ func runHarness(h replayHarness, req map[string]interface{}, tag string) (map[st
 	args = append(args, "./"+h.PkgDir)
 	cmd := exec.CommandContext(ctx, "go", args...)
 	cmd.Dir = repoDir
-	cmd.Env = append(loadEnv(), "VERIF_REPLAY_REQ="+reqFile, "VERIF_REPLAY_OUT="+outFile)
+	// temporary directories of the harness (store directories of simulated shards, ...) live under the run's scratch directory
+	// and are removed with it, also when the test binary is killed by its time-out and its own clean-up never runs
+	tmpDir := filepath.Join(scratch, "tmp")
+	os.MkdirAll(tmpDir, 0o755)
+	defer os.RemoveAll(tmpDir)
+	cmd.Env = append(loadEnv(), "VERIF_REPLAY_REQ="+reqFile, "VERIF_REPLAY_OUT="+outFile, "TMPDIR="+tmpDir)
 	outb, err := cmd.CombinedOutput()
 	text := string(outb)
 	if len(text) > 6000 {
